@@ -613,3 +613,72 @@ def padding_variants(frec):
     for (pad, what) in bad_pads:
         out.append(("Stream Padding between Streams: " + what, first + pad + tail, len(first), len(first) + len(pad)))
     return out
+
+
+# ----------------------------------------------------------------------------------------------------------------
+# hand-assembled .xz files whose Check fields come from INDEPENDENT implementations (zlib CRC32, the bitwise CRC-64
+# below, hashlib SHA-256) and whose payload is LZMA2 uncompressed chunks, so that payload bytes == data bytes.
+# A check function of the library that is merely self-consistent (e.g. ignores the tail of the data) rejects these
+# files or accepts a flip of a data byte; only an oracle outside the library sees that.
+# ----------------------------------------------------------------------------------------------------------------
+
+def crc64_ref(data):
+    c = 0xFFFFFFFFFFFFFFFF
+    for b in data:
+        c ^= b
+        for _ in range(8):
+            c = (c >> 1) ^ 0xC96C5795D7870F42 if c & 1 else c >> 1
+    return c ^ 0xFFFFFFFFFFFFFFFF
+
+
+def independent_check(check, data):
+    import hashlib
+    if check == 0:
+        return b""
+    if check == 1:
+        return struct.pack("<I", zlib.crc32(data) & 0xFFFFFFFF)
+    if check == 4:
+        return struct.pack("<Q", crc64_ref(data))
+    if check == 10:
+        return hashlib.sha256(data).digest()
+    raise ValueError(check)
+
+
+def assemble_xz_stream(blocks, check):
+    """blocks: list of plaintext byte strings, one Block each (LZMA2 uncompressed chunks, dictionary 4 KiB).
+    Returns (stream bytes, [(data_start, data_end)] = where each Block's plaintext bytes sit in the file; for data
+    longer than 64 KiB the range covers the chunk headers in between as well)."""
+    out = bytearray(HEADER_MAGIC + bytes([0, check]))
+    out += struct.pack("<I", zlib.crc32(bytes(out[6:8])))
+    recs, ranges = [], []
+    for data in blocks:
+        bh = bytearray([0x02, 0x00, 0x21, 0x01, 0x00, 0, 0, 0])
+        bh += struct.pack("<I", zlib.crc32(bytes(bh)))
+        start = len(out)
+        out += bh
+        pay = bytearray()
+        first, p = True, 0
+        d0 = None
+        while p < len(data):
+            n = min(65536, len(data) - p)
+            pay += bytes([0x01 if first else 0x02]) + struct.pack(">H", n - 1)
+            if d0 is None:
+                d0 = start + len(bh) + len(pay)
+            pay += data[p:p + n]
+            p += n
+            first = False
+        d1 = start + len(bh) + len(pay)
+        pay += b"\0"
+        out += pay
+        out += b"\0" * ((-len(pay)) % 4)
+        chk = independent_check(check, data)
+        out += chk
+        recs.append((len(bh) + len(pay) + len(chk), len(data)))
+        ranges.append((d0 if d0 is not None else d1, d1))
+    idx = b"\0" + enc_vli(len(recs)) + b"".join(enc_vli(u) + enc_vli(c) for (u, c) in recs)
+    idx += b"\0" * ((-len(idx)) % 4)
+    idx += struct.pack("<I", zlib.crc32(idx))
+    out += idx
+    ftr = struct.pack("<I", len(idx) // 4 - 1) + bytes([0, check])
+    out += struct.pack("<I", zlib.crc32(ftr)) + ftr + FOOTER_MAGIC
+    return bytes(out), ranges
